@@ -393,7 +393,7 @@ func c10Gen(g *Gen) {
 	roles := []string{"plain", "env", "copy", "unescape", "inline-src", "inline-dst", "hidden"}
 	for _, ns := range []int{1, 2, 3, 13, 14, 15, 16, 17, 40} {
 		for _, role := range roles {
-			lens := []int{0, 1, 2, 14, 15, 16, 17, 18, 30, 31, 32, 33, 254, 255, 256, 257, 258}
+			lens := []int{0, 1, 2, 14, 15, 16, 17, 18, 30, 31, 32, 33, 34, 254, 255, 256, 257, 258}
 			for _, n := range lens {
 				for rep := 0; rep < g.Pick(1, 6); rep++ {
 					cc := c10Random(r, ns, []int{0, 1, 3, 7})
@@ -631,7 +631,7 @@ func c10Gen(g *Gen) {
 	}
 
 	// ---- 9. long keys (n-2..n+2 around the fixstr/str16 key boundary, and around 256) ----
-	for _, n := range []int{14, 15, 16, 17, 18, 254, 255, 256, 257, 258} {
+	for _, n := range []int{14, 15, 16, 17, 18, 30, 31, 32, 33, 34, 254, 255, 256, 257, 258} {
 		for rep := 0; rep < g.Pick(2, 10); rep++ {
 			cc := c10Random(r, r.PickInt([]int{2, 3, 15}), []int{0, 1, 5, 17})
 			k := r.Intn(len(cc.schema))
